@@ -42,6 +42,19 @@ CovReport cov_report() {
     r.uncovered_funcs.assign(unc.begin(), unc.end());
     return r;
 }
+std::vector<uint64_t> cov_uncovered_pcs_in_entered_functions() {
+    std::vector<uint64_t> out;
+    for (int m = 0; m < g_pcs_mods; m++) {
+        uint32_t g = g_pcs_first_guard[m] ? g_pcs_first_guard[m] : 1;
+        bool entered = false;
+        for (const uintptr_t *p = g_pcs_beg[m]; p < g_pcs_end[m]; p += 2, g++) {
+            bool hit = g < g_cov_n && g_cov[g];
+            if (p[1] & 1) entered = hit;
+            else if (entered && !hit) out.push_back(p[0]);
+        }
+    }
+    return out;
+}
 }  // namespace sim
 
 // With -fsanitize-coverage=trace-pc-guard,pc-table clang emits, per translation unit, one call to each
